@@ -44,7 +44,7 @@ PROPS["C12"] = {
 
 PROPS["C06"] = {
     "level": "proof",
-    "rules": [p_rs.tab_gen, p_rs.tab_gf, p_rs.gf_ops, only(p_symbols.tab_sym, SYM_RS, "codeword and block columns"), p_rs.prov_rsenc, p_rs.uniform],
+    "rules": [p_rs.tab_gen, p_rs.tab_gf, p_rs.gf_ops, only(p_symbols.tab_sym, SYM_RS, "codeword and block columns"), p_rs.prov_rsenc, p_rs.uniform, p_rs.lfsr],
     "explanation": "Decided: (1) all 25 generator polynomials equal prod(x-2^i) computed by an independent carry-less GF(256) "
                    "implementation, one per degree required by the standard, and generator(len) selects by degree; (2) ANTI_LOG/LOG "
                    "equal the powers of 2 modulo 0x12D and GF add/sub/mul/div agree with the reference field for all 65536 operand "
@@ -117,7 +117,7 @@ PROPS["C16"] = {
 
 PROPS["C09"] = {
     "level": "proof",
-    "rules": [p_rs.synzero, p_rs.prov_rsdec, p_rs.tab_gf, p_rs.gf_ops],
+    "rules": [p_rs.synzero, p_rs.syndromes, p_rs.prov_rsdec, p_rs.tab_gf, p_rs.gf_ops],
     "explanation": "SYNZERO is a typestate argument over decode_gen's statement structure: a bit `verified` is set only on the "
                    "all-zero edge of primitive_element_evaluation(<data.step_by(stride) ++ error.step_by(stride)>, <the whole k-entry "
                    "syndrome buffer>) and cleared by every store into data/error; every `Ok` exit of decode_gen must see the bit set; "
@@ -134,7 +134,7 @@ PROPS["C09"] = {
 
 PROPS["C03"] = {
     "level": "other",
-    "rules": [p_rs.prov_rsdec, p_rs.gather_scatter, p_rs.synzero, p_rs.root_cover, only(p_symbols.tab_sym, SYM_RS, "codeword and block columns")],
+    "rules": [p_rs.prov_rsdec, p_rs.gather_scatter, p_rs.synzero, p_rs.syndromes, p_rs.root_cover, only(p_symbols.tab_sym, SYM_RS, "codeword and block columns")],
     "explanation": "Clause-level claim: that every pattern of weight <= floor(k/2) is repaired is a theorem about Levinson-Durbin + "
                    "Chien + Bjoerck-Pereyra over GF(256) that no static argument in reach establishes (a mutation inside the locator "
                    "recursion is NOT detected). Decided necessary conditions, all about interleaving (the part the single-block tests "
